@@ -400,11 +400,13 @@ theorem obstacleV_sound (o : Orc σ κ) (segs : σ → σ → Nat) (interp : σ 
       obtain ⟨k, hk⟩ := uniformV_sound o .uniform n _ h2
       have sp := checkMotionF_spec o segs interp (uniformV o .uniform n (findInvalid o c n s).os).st
         (findInvalid o c n s).st (hseg _ _) (uniformV o .uniform n (findInvalid o c n s).os).os
-      split
-      · exact ⟨k, (hk.ext_left e1).ext_right sp.1⟩
-      · rename_i hne
+      by_cases hz : (checkMotionF o segs interp (uniformV o .uniform n (findInvalid o c n s).os).st
+          (findInvalid o c n s).st (uniformV o .uniform n (findInvalid o c n s).os).os).2 = 0
+      · rw [if_pos hz]
+        exact ⟨k, (hk.ext_left e1).ext_right sp.1⟩
+      · rw [if_neg hz]
         rcases sp.2 with he | ⟨c', hc⟩
-        · exact absurd he hne
+        · exact absurd he hz
         · exact ⟨c', hc.ext_left (e1.trans hk.ext)⟩
     · simp at h
 
